@@ -542,6 +542,12 @@ func (x *vc) execInstr(fr *frame, st *state, instr ssa.Instruction) {
 		r := x.alloc(st, "iter")
 		name, _ := x.cellArr(st, types.Typ[types.Int])
 		x.storeLV(st, &lvalue{arr: name, ref: r}, "0")
+		if fr.top {
+			// the position of a range-over-string loop is not a program variable: no callee can reach it
+			x.needLocalobj()
+			x.hasLocal = true
+			x.assume(st.guard, app("localobj", r))
+		}
 		sv := xv
 		fr.vals[in] = Val{Typ: in.Type(), Iter: &iterInfo{str: &sv, cell: r}}
 	case *ssa.Next:
